@@ -683,7 +683,7 @@ def err_program(rng, pid, horizon):
     first_in_chain = 2
     if rng.random() < 0.3:
         # a thrower that owns a scheduler: it throws from a timer-driven evaluation while its next wake-up may be pending
-        nodes.append(P.node("tdelay", ins=[prev], k=rng.randint(1, 2), cap=1))
+        nodes.append(P.node(rng.choice(["tdelay", "techo", "techo"]), ins=[prev], k=rng.randint(1, 2), cap=1))
     else:
         nodes.append(P.node("throwneg", ins=[prev], cap=1))
     thrower = len(nodes)
